@@ -1,6 +1,8 @@
 """C02: tree readers are total: never crash, never hang; every delivered tree is usable."""
 from lib import *
 import json as _json
+import sys as _sys
+_sys.setrecursionlimit(max(_sys.getrecursionlimit(), 20000))   # documents nested a few hundred levels deep are walked recursively
 
 PROP = "C02"
 LEVEL = "proof"
@@ -19,7 +21,12 @@ RULE = ("cases = (format, bytes) for the five formats newick | multi (multi-Newi
         "Nextstrain v2 JSON (div, num_date, country, accession, aa labels). Then: truncation at every kind of position, "
         "splices of two documents (also across formats), byte mutations (replace/insert/delete, NUL, CR, high bytes, "
         "metacharacters), and targeted damage: unterminated comments and blocks, missing values after '=', "
-        "whitespace-only lines, unbalanced parentheses, empty labels, duplicated labels, deep nesting (depth 500..5000 quick; up to "
+        "whitespace-only lines, unbalanced parentheses, empty labels, duplicated labels; structural damage of the decoded "
+        "JSON / XML documents (kind json-struct / xml-struct): null in place of any value (child entries, the tree, names, node_attrs, "
+        "div / num_date values), values of another type (number/string/array/object/bool swapped), empty arrays and objects, removed "
+        "and duplicated keys, children nested up to 400 deep; empty <clade/>, missing or empty <name>, non-numeric or empty "
+        "<branch_length>/<confidence>, empty and nested empty elements (taxonomy, id, code), unknown and renamed elements, "
+        "duplicated children, odd attributes; deep nesting (depth 500..5000 quick; up to "
         "20000 thorough, with a relaxed watchdog: indexing is quadratic in the depth). Plus a fixed list of hand-written witnesses (the three crashes found on the unchanged code "
         "among them). A case is non-trivial when the model/implementation comparison ran (modelled formats) or a tree was "
         "delivered (PhyloXML/Nextstrain); distinct = distinct case text")
@@ -248,6 +255,204 @@ def gen_nextstrain(rng):
     if rng.random() < 0.05: doc["tree"] = [doc.get("tree")]
     return _json.dumps(doc, indent=rng.choice([None, 1]), ensure_ascii=rng.random() < 0.5)
 
+# ---------------------------------------------------------------- structural damage of decoded documents
+
+class Dup:
+    """a JSON object written with one key twice: pairs = [(key, value), ...]"""
+    def __init__(self, pairs): self.pairs = pairs
+
+def jdump(v, rng=None):
+    """json writer that knows Dup objects (duplicated keys)"""
+    if isinstance(v, Dup):
+        return "{" + ",".join(_json.dumps(k) + ":" + jdump(x) for k, x in v.pairs) + "}"
+    if isinstance(v, dict):
+        return "{" + ",".join(_json.dumps(k) + ":" + jdump(x) for k, x in v.items()) + "}"
+    if isinstance(v, list):
+        return "[" + ",".join(jdump(x) for x in v) + "]"
+    return _json.dumps(v)
+
+def jpaths(v, path=()):
+    """every position of a JSON value: (container, key) pairs, the root excluded"""
+    out = []
+    if isinstance(v, dict):
+        for k, x in v.items():
+            out.append((v, k)); out += jpaths(x)
+    elif isinstance(v, list):
+        for i, x in enumerate(v):
+            out.append((v, i)); out += jpaths(x)
+    return out
+
+def jwrong(rng, old):
+    """a value of another JSON type / an empty or degenerate value"""
+    pool = [None, None, None, True, False, 0, -1, 1.5, 1e308, "", "x", "null", [], {}, [None], [[]], [{}], {"children": None}, {"name": None},
+            {"children": [None]}, {"children": []}, {"node_attrs": None}, {"node_attrs": {"div": None}}, [1, "a", None], {"value": None}]
+    x = rng.choice(pool)
+    if type(x) == type(old) and x == old:
+        x = None
+    return x
+
+def json_struct(rng, doc):
+    """structural mutations of a decoded JSON document (a deep copy is changed); returns text"""
+    doc = _json.loads(_json.dumps(doc))
+    for _ in range(rng.choice([1, 1, 1, 2, 3])):
+        ps = jpaths(doc)
+        if not ps:
+            break
+        # favour the positions the converter walks: children arrays and their entries, names, node_attrs, div, num_date
+        hot = [(c, k) for c, k in ps if k in ("children", "name", "node_attrs", "div", "num_date", "value", "tree", "version", "branch_attrs", "labels", "aa",
+                                              "country", "accession", "confidence", "mutations") or isinstance(c, list)]
+        c, k = rng.choice(hot if hot and rng.random() < 0.8 else ps)
+        op = rng.random()
+        if op < 0.45:
+            c[k] = None if rng.random() < 0.6 else jwrong(rng, c[k])
+        elif op < 0.6:
+            c[k] = jwrong(rng, c[k])
+        elif op < 0.7:
+            if isinstance(c, list): c.insert(k, None if rng.random() < 0.7 else jwrong(rng, None))
+            else: c[k] = [c[k]] if rng.random() < 0.5 else {"value": c[k]}
+        elif op < 0.8:
+            del c[k]
+        elif op < 0.9 and isinstance(c, dict):
+            # duplicated key: second occurrence null / wrong type / a copy
+            other = rng.choice([None, jwrong(rng, c[k]), c[k]])
+            pairs = []
+            for kk, vv in c.items():
+                pairs.append((kk, vv))
+                if kk == k: pairs.append((kk, other))
+            if rng.random() < 0.5: pairs.reverse()
+            # replace c in its parent by a Dup (or at the root)
+            for pc, pk in jpaths(doc):
+                if pc[pk] is c:
+                    pc[pk] = Dup(pairs); break
+            else:
+                if c is doc: return jdump(Dup(pairs))
+        else:
+            # nest the subtree a few levels deeper through children arrays
+            v = c[k]
+            for _ in range(rng.choice([1, 3, 50, 400])):
+                v = {"children": [v]} if rng.random() < 0.8 else {"name": "n", "children": [v, None]}
+            c[k] = v
+    return jdump(doc)
+
+GENERIC_JSON = ["null", "true", "0", "\"v2\"", "[]", "[null]", "{}", "{\"tree\":null}", "{\"version\":null,\"tree\":null}", "{\"version\":\"v2\",\"tree\":null}",
+                "{\"version\":\"v2\",\"tree\":[]}", "{\"version\":\"v2\",\"tree\":\"x\"}", "{\"version\":\"v2\",\"tree\":3}",
+                "{\"version\":\"v2\",\"tree\":{\"children\":[null]}}", "{\"version\":\"v2\",\"tree\":{\"name\":\"root\",\"children\":[{\"name\":\"A\"},null]}}",
+                "{\"version\":\"v2\",\"tree\":{\"name\":\"root\",\"children\":[null,{\"name\":\"A\"}]}}",
+                "{\"version\":\"v2\",\"tree\":{\"name\":null,\"children\":[{\"name\":null}]}}", "{\"version\":\"v2\",\"tree\":{\"name\":\"r\",\"children\":{}}}",
+                "{\"version\":\"v2\",\"tree\":{\"name\":\"r\",\"children\":[[]]}}", "{\"version\":\"v2\",\"tree\":{\"name\":\"r\",\"children\":[1]}}",
+                "{\"version\":\"v2\",\"tree\":{\"name\":\"r\",\"children\":[\"a\"]}}", "{\"version\":\"v2\",\"tree\":{\"name\":\"r\",\"node_attrs\":null}}",
+                "{\"version\":\"v2\",\"tree\":{\"name\":\"r\",\"node_attrs\":{\"div\":null,\"num_date\":null}}}",
+                "{\"version\":\"v2\",\"tree\":{\"name\":\"r\",\"node_attrs\":{\"num_date\":{\"value\":null,\"confidence\":null}}}}",
+                "{\"version\":\"v2\",\"tree\":{\"name\":\"r\",\"node_attrs\":{\"num_date\":{\"value\":\"2020\"}}}}",
+                "{\"version\":\"v2\",\"tree\":{\"name\":\"r\",\"node_attrs\":{\"country\":null,\"region\":{\"confidence\":null}}}}",
+                "{\"version\":\"v2\",\"tree\":{\"name\":\"r\",\"branch_attrs\":null}}", "{\"version\":\"v2\",\"tree\":{\"name\":\"r\",\"branch_attrs\":{\"labels\":null,\"mutations\":null}}}",
+                "{\"version\":\"v2\",\"tree\":{\"name\":\"r\",\"branch_attrs\":{\"mutations\":{\"nuc\":null}}}}", "{\"version\":\"v2\",\"tree\":{\"name\":\"r\",\"branch_attrs\":{\"mutations\":{\"nuc\":[null]}}}}",
+                "{\"version\":\"v2\",\"tree\":{\"name\":\"a\"},\"tree\":null}", "{\"version\":\"v2\",\"tree\":null,\"tree\":{\"name\":\"a\"}}",
+                "{\"version\":\"v2\",\"version\":null,\"tree\":{\"name\":\"a\"}}", "{\"version\":\"v2\",\"tree\":{\"children\":[{\"name\":\"a\"}],\"children\":null,\"name\":\"r\"}}",
+                "{\"version\":\"v2\",\"tree\":{\"children\":[{\"children\":[{\"children\":[null]}]}]}}", "{\"VERSION\":\"v2\",\"Tree\":{\"NAME\":\"a\",\"CHILDREN\":[null]}}"]
+
+def gen_json_struct(rng):
+    if rng.random() < 0.12:
+        return rng.choice(GENERIC_JSON)
+    t = rand_tree(rng)
+    doc = {"version": "v2", "meta": {"title": "x"}, "tree": ns_node(rng, t, 0.0)}
+    return json_struct(rng, doc)
+
+# XML: element = [tag, attrs dict, children list | text]
+def px_elem(rng, t, e):
+    kidsl = []
+    if t["name"] != "":
+        kidsl.append(["name", {}, t["name"]])
+    if e is not None:
+        if e["len"] is not None: kidsl.append(["branch_length", {}, repr(float(e["len"]))])
+        if e["sup"] is not None: kidsl.append(["confidence", {"type": "bootstrap"}, repr(float(e["sup"]))])
+    for e2, c in kids(t):
+        kidsl.append(px_elem(rng, c, e2))
+    return ["clade", {}, kidsl]
+
+def xdump(el):
+    tag, attrs, body = el
+    a = "".join(' %s="%s"' % kv for kv in attrs.items())
+    if body is None:
+        return "<%s%s/>" % (tag, a)
+    if isinstance(body, str):
+        return "<%s%s>%s</%s>" % (tag, a, body, tag)
+    return "<%s%s>%s</%s>" % (tag, a, "".join(xdump(x) for x in body), tag)
+
+def xnodes(el, out=None):
+    out = [] if out is None else out
+    out.append(el)
+    if isinstance(el[2], list):
+        for x in el[2]:
+            xnodes(x, out)
+    return out
+
+BAD_NUM = ["", " ", "abc", "NaN", "Inf", "-Inf", "1e999", "-1e999", "0x10", "1,5", "1.5.2", "--1", "1e", ".", "+", "1 2", "１２", "1e-999", "-0", "-1"]
+
+def xml_struct(rng, root):
+    """structural mutations of a PhyloXML element tree; returns text"""
+    for _ in range(rng.choice([1, 1, 2, 3])):
+        ns = xnodes(root)
+        el = rng.choice(ns)
+        clades = [x for x in ns if x[0] == "clade"]
+        nums = [x for x in ns if x[0] in ("branch_length", "confidence")]
+        names = [x for x in ns if x[0] == "name"]
+        op = rng.random()
+        if op < 0.2 and clades:
+            c = rng.choice(clades); c[2] = None if rng.random() < 0.6 else []          # <clade/>
+        elif op < 0.35 and names:
+            n = rng.choice(names)
+            for x in ns:
+                if isinstance(x[2], list) and n in x[2]:
+                    if rng.random() < 0.6: x[2].remove(n)                                # missing <name>
+                    else: n[2] = rng.choice([None, "", " ", [["name", {}, "x"]]])        # <name/>, nested
+        elif op < 0.55 and nums:
+            n = rng.choice(nums); n[2] = rng.choice(BAD_NUM) if rng.random() < 0.8 else rng.choice([None, [["x", {}, None]]])
+        elif op < 0.65 and clades:
+            c = rng.choice(clades)
+            if isinstance(c[2], list):
+                c[2].insert(rng.randrange(len(c[2]) + 1),
+                            rng.choice([["clade", {}, None], ["clade", {}, [["clade", {}, None]]], ["taxonomy", {}, None], ["taxonomy", {}, [["id", {}, None]]],
+                                        ["taxonomy", {}, [["id", {"provider": ""}, "x"], ["code", {}, None]]], ["taxonomy", {}, [["scientific_name", {}, None]]],
+                                        ["name", {}, None], ["branch_length", {}, None], ["confidence", {}, None], ["confidence", {}, "0.5"], ["unknown", {}, [["clade", {}, None]]],
+                                        ["name", {}, "dup"], ["branch_length", {}, "1"], ["sequence", {}, [["name", {}, "s"]]]]))
+        elif op < 0.72:
+            el[1][rng.choice(["rooted", "type", "xmlns", "branch_length", "id"])] = rng.choice(["", "x", "true", "1", "null"])
+        elif op < 0.8 and clades:
+            c = rng.choice(clades)                                                    # nested empty elements
+            v = None
+            for _ in range(rng.choice([1, 2, 30, 300])):
+                v = [["clade", {}, v]]
+            c[2] = v
+        elif op < 0.88:
+            el[0] = rng.choice(["Clade", "CLADE", "phylogeny", "clade", "name", "x:clade", "phyloxml"])
+        elif op < 0.94 and isinstance(el[2], list) and el[2]:
+            el[2].append(_json.loads(_json.dumps(rng.choice(el[2]))))                  # duplicated child
+        else:
+            el[2] = rng.choice([None, "", "text", []])
+    return xdump(root)
+
+GENERIC_XML = ["<phyloxml/>", "<phyloxml><phylogeny/></phyloxml>", "<phyloxml><phylogeny><clade/></phylogeny></phyloxml>",
+               "<phyloxml><phylogeny><clade><clade/></clade></phylogeny></phyloxml>", "<phyloxml><phylogeny><clade><clade/><clade/></clade></phylogeny></phyloxml>",
+               "<phyloxml><phylogeny><clade><name/></clade></phylogeny></phyloxml>", "<phyloxml><phylogeny><clade><name>a</name><branch_length/></clade></phylogeny></phyloxml>",
+               "<phyloxml><phylogeny><clade><clade><name>a</name><branch_length>abc</branch_length></clade><clade><name>b</name></clade></clade></phylogeny></phyloxml>",
+               "<phyloxml><phylogeny><clade><clade><name>a</name></clade><clade><confidence>x</confidence><clade><name>b</name></clade><clade><name>c</name></clade></clade></clade></phylogeny></phyloxml>",
+               "<phyloxml><phylogeny><clade><clade><name>a</name><confidence/></clade><clade><name>b</name></clade></clade></phylogeny></phyloxml>",
+               "<phyloxml><phylogeny><clade><taxonomy/></clade></phylogeny></phyloxml>", "<phyloxml><phylogeny><clade><taxonomy><id/><code/></taxonomy></clade></phylogeny></phyloxml>",
+               "<phyloxml><phylogeny><clade><taxonomy><id>x</id><code>c</code></taxonomy></clade></phylogeny></phyloxml>",
+               "<phyloxml><phylogeny><clade><taxonomy><scientific_name/></taxonomy><clade><taxonomy><code>a</code></taxonomy></clade><clade/></clade></phylogeny></phyloxml>",
+               "<phyloxml><phylogeny rooted=\"\"><clade><name>a</name></clade></phylogeny></phyloxml>", "<phyloxml><phylogeny><clade><name>a</name></clade><clade><name>b</name></clade></phylogeny></phyloxml>",
+               "<phyloxml><clade><name>a</name></clade></phyloxml>", "<phylogeny><clade><name>a</name></clade></phylogeny>", "<phyloxml><phylogeny><name>t</name></phylogeny></phyloxml>"]
+
+def gen_xml_struct(rng):
+    if rng.random() < 0.12:
+        return rng.choice(GENERIC_XML)
+    k = rng.choice([1, 1, 2])
+    phys = []
+    for _ in range(k):
+        phys.append(["phylogeny", {"rooted": rng.choice(["true", "false"])}, [px_elem(rng, rand_tree(rng), None)]])
+    return xml_struct(rng, ["phyloxml", {}, phys])
+
 GENS = {"newick": gen_newick, "multi": gen_multi, "nexus": gen_nexus, "phyloxml": gen_phyloxml, "nextstrain": gen_nextstrain}
 
 # ---------------------------------------------------------------- damage
@@ -404,6 +609,14 @@ def gen(rng, tier):
     if tier != "search":
         for fmt, s in FIXED:
             out.append(case(fmt, s, "fixed"))
+    if tier != "search":
+        for x in GENERIC_JSON:
+            out.append(case("nextstrain", x, "fixed"))
+        for x in GENERIC_XML:
+            out.append(case("phyloxml", x, "fixed"))
+    for _ in range({"quick": 250, "thorough": 20000, "search": 150}[tier]):
+        out.append(case("nextstrain", gen_json_struct(rng), "json-struct"))
+        out.append(case("phyloxml", gen_xml_struct(rng), "xml-struct"))
     fmts = ["newick", "multi", "multi", "nexus", "nexus", "nexus", "phyloxml", "nextstrain"]
     for _ in range(n):
         fmt = rng.choice(fmts)
@@ -418,6 +631,12 @@ def gen(rng, tier):
             out.append(case(fmt, splice(rng, d, b(GENS[other](rng))), "spliced"))
         if rng.random() < 0.3:
             out.append(case(fmt, mutate(rng, truncate(rng, d)), "truncated+mutated"))
+        if fmt == "nextstrain":
+            for _ in range(3):
+                out.append(case(fmt, gen_json_struct(rng), "json-struct"))
+        if fmt == "phyloxml":
+            for _ in range(3):
+                out.append(case(fmt, gen_xml_struct(rng), "xml-struct"))
     # indexing a caterpillar is quadratic in its depth (ReinitIndexes needs ~6 s at depth 20000, the Nexus tree-string
     # concatenation ~20 s): beyond 5000 the watchdog is relaxed; larger depths only exhaust time and memory
     depths = {"quick": [500, 2000, 5000], "thorough": [1000, 5000, 10000, 20000], "search": []}[tier]
